@@ -83,6 +83,7 @@ SDScale(a, n) == SD(a.neg, a.m, a.k + n)                        \* a * 2^n
 MinK(a, b)  == IF a.k < b.k THEN a.k ELSE b.k
 AlignTo(a, k) == ShiftLeft(a.m, a.k - k)                        \* k <= a.k
 SDAdd(a, b) ==
+  IF a.m = Zero THEN b ELSE IF b.m = Zero THEN a ELSE
   LET k == MinK(a, b)
       x == AlignTo(a, k)
       y == AlignTo(b, k)
@@ -90,9 +91,20 @@ SDAdd(a, b) ==
      ELSE IF Less(x, y) THEN SD(b.neg, Sub(y, x), k)
      ELSE SD(a.neg, Sub(x, y), k)
 SDSub(a, b)    == SDAdd(a, SDNeg(b))
-SDLess(a, b)   == SDSign(SDSub(a, b)) = -1
-SDLessEq(a, b) == SDSign(SDSub(a, b)) <= 0
-SDEq(a, b)     == SDSign(SDSub(a, b)) = 0
+\* comparison without forming the difference: numbers of different binary magnitude are ordered by it (2^(TopBit-1) <= |a| < 2^TopBit);
+\* only numbers of the same magnitude are aligned (by at most the length of a mantissa), so that comparing the largest double with
+\* the smallest denormal does not shift by 2000 bits
+RECURSIVE BitLen(_)
+BitLen(d) == IF d = 0 THEN 0 ELSE 1 + BitLen(d \div 2)
+TopBit(a) == 15 * (Len(a.m) - 1) + BitLen(a.m[Len(a.m)]) + a.k                    \* a # 0
+AbsLess(a, b) == IF b.m = Zero THEN FALSE ELSE IF a.m = Zero THEN TRUE
+                 ELSE IF TopBit(a) # TopBit(b) THEN TopBit(a) < TopBit(b)
+                 ELSE LET k == MinK(a, b) IN Less(AlignTo(a, k), AlignTo(b, k))
+SDLess(a, b)   == LET sa == SDSign(a)
+                      sb == SDSign(b)
+                  IN IF sa # sb THEN sa < sb ELSE IF sa = 0 THEN FALSE ELSE IF sa = 1 THEN AbsLess(a, b) ELSE AbsLess(b, a)
+SDLessEq(a, b) == ~SDLess(b, a)
+SDEq(a, b)     == ~SDLess(a, b) /\ ~SDLess(b, a)
 
 \* same real value (identical finite values; -0 = +0); never true for NaN; infinities equal when the patterns are
 SameValue(a, b) == /\ ~IsNaN(a) /\ ~IsNaN(b)
@@ -100,6 +112,22 @@ SameValue(a, b) == /\ ~IsNaN(a) /\ ~IsNaN(b)
                       \/ IsZero(a) /\ IsZero(b)
 \* order of values on non-NaN floats = order of keys (checked against SD arithmetic in ScalarKernelsMC)
 ValLessEq(a, b) == KeyLessEq(a, b)
+
+\* ---- binary64 patterns -------------------------------------------------------------
+\* four 16-bit quarters <<q3, q2, q1, q0>> (q3 most significant): sign 1, exponent 11, fraction 52 bits.  The 53-bit
+\* mantissa does not fit a TLC integer: it is assembled on limbs.  Independent of the constants MB, EB.
+IsQuarters(q)  == Len(q) = 4 /\ \A i \in 1..4 : q[i] \in 0..65535
+D64Sign(q)     == q[1] \div 32768
+D64Exp(q)      == (q[1] % 32768) \div 16
+D64Frac(q)     == Add(Add(ShiftLeft(FromInt(q[1] % 16), 48), ShiftLeft(FromInt(q[2]), 32)), Add(ShiftLeft(FromInt(q[3]), 16), FromInt(q[4])))
+D64IsFinite(q) == D64Exp(q) # 2047
+D64IsNaN(q)    == D64Exp(q) = 2047 /\ D64Frac(q) # Zero
+D64IsZero(q)   == D64Exp(q) = 0 /\ D64Frac(q) = Zero
+D64Class(q)    == IF D64IsZero(q) THEN "zero" ELSE IF D64Exp(q) = 0 THEN "denormal" ELSE IF D64Exp(q) # 2047 THEN "normal"
+                  ELSE IF D64IsNaN(q) THEN "nan" ELSE "inf"
+D64Val(q)      == SD(D64Sign(q) = 1, IF D64Exp(q) = 0 THEN D64Frac(q) ELSE Add(Pow2L(52), D64Frac(q)),
+                     (IF D64Exp(q) = 0 THEN 1 ELSE D64Exp(q)) - 1075)                    \* finite q only
+D64Tiny        == SDPow2(0 - 1074)
 
 \* ---- encoding an exactly representable dyadic number --------------------------------
 \* the float with value (-1)^neg * m * 2^k for an integer 0 <= m < 2^31, if one exists
